@@ -34,10 +34,35 @@ void jwt_checker_free(jwt_checker_t *c) { }
 int jwt_checker_error(const jwt_checker_t *c) { return 0; }
 const char *jwt_checker_error_msg(const jwt_checker_t *c) { return "m"; }
 
+#ifdef LINES
+/* -DLINES: standard input carries NTOK lines of arbitrary text (0..LMAX bytes each, no NUL, no
+ * newline inside), each ended by a newline except, possibly, the last one */
+#define LMAX 3
+#ifndef NTOK
+#define NTOK 2
+#endif
+static char line_txt[NTOK][LMAX + 1];
+static unsigned line_len[NTOK];
+static int last_unterminated;
+#endif
+static char a_tok[] = "x";
+
 int jwt_checker_verify(jwt_checker_t *c, const char *token)
 {
 	int bad = nondet_bool();             /* arbitrary verdict for every token */
 	__CPROVER_assert(c == &the_checker && token != NULL, "C20: verify called with the tool's checker and a token");
+#ifdef LINES
+	{
+		unsigned i = verify_calls < NTOK ? verify_calls : NTOK - 1, j;
+		int same = strlen(token) == line_len[i];
+		for (j = 0; j < LMAX; j++)
+			if (j < line_len[i] && same && token[j] != line_txt[i][j])
+				same = 0;
+		PROP(same, "C20: every standard-input line reaches the library as one token, without its line terminator and otherwise unchanged");
+	}
+#elif defined(SIDE_EXIT) && !defined(STDIN)
+	PROP(token == a_tok, "C20: every argument reaches the library as one token, unchanged");
+#endif
 	verify_calls++;
 	if (bad)
 		failures++;
@@ -93,13 +118,37 @@ char *fgets(char *s, int size, FILE *stream)
 		return NULL;
 	lines_left--;
 	__CPROVER_assert(size >= 3, "harness: fgets buffer");
+#ifdef LINES
+	{
+		unsigned i = NTOK - 1 - lines_left, n = nondet_uint(), j;
+		int has_nl = lines_left > 0 ? 1 : nondet_bool();
+		__CPROVER_assert(size >= LMAX + 2, "harness: fgets buffer");
+		__CPROVER_assume(n <= LMAX && (has_nl || n >= 1));     /* an empty read at end of input is EOF */
+		for (j = 0; j < LMAX; j++) {
+			char ch = nondet_char();
+			__CPROVER_assume(ch != '\0' && ch != '\n');
+			line_txt[i][j] = ch;
+			if (j < n)
+				s[j] = ch;
+		}
+		line_len[i] = n;
+		if (has_nl) {
+			s[n] = '\n';
+			s[n + 1] = '\0';
+		} else {
+			s[n] = '\0';
+			last_unterminated = 1;
+		}
+		return s;
+	}
+#endif
 	s[0] = 'x';
 	s[1] = '\n';
 	s[2] = '\0';
 	return s;
 }
 
-static char a_prog[] = "jwt-verify", a_tok[] = "x", a_dash[] = "-", a_q[] = "-q";
+static char a_prog[] = "jwt-verify", a_dash[] = "-", a_q[] = "-q";
 
 #ifdef SIDE_EXIT
 static void at_exit_check(void)
@@ -108,6 +157,10 @@ static void at_exit_check(void)
 	PROP((exit_status == 0) == (failures == 0), "C20: jwt-verify exits 0 exactly when every token verified");
 	REACH(failures == NTOK, "every token failed");
 	REACH(failures == 0, "every token verified");
+#ifdef LINES
+	REACH(last_unterminated && line_len[NTOK - 1] == LMAX, "last line without a newline");
+	REACH(!last_unterminated && line_len[0] == 0, "empty first line");
+#endif
 #if NTOK >= 2
 	REACH(failures == 1, "one bad token among good ones");
 #endif
